@@ -31,9 +31,16 @@ theorem steps_recvOne_packet (s : Sock) (hudp : s.tcp = false) (cfg : Config) (s
 theorem dataRequest_ne (c : Int) : (dataRequest c == handshakeRequest) = false := by
   simp [dataRequest, handshakeRequest, Gs3.Spec.sessionId]
 
+/-- attempts that receive nothing of the reply before they fail are in the domain whatever the reply -/
+theorem wf_of_got_nil (pool : List Bytes) (a : Attempt) (h : a.got = []) : a.wf pool = true := by
+  obtain ⟨stage, sf, got⟩ := a
+  simp only at h
+  subst h
+  simp [Attempt.wf, Gs3.Spec.gotAt, partOf]
+
 /-- the whole query on the script of a plan followed by anything -/
 theorem query_faulty (cfg : Config) (st : State) (h : wf cfg st = true) (port : Option Nat) (retries : Nat)
-    (plan : Plan) (hplan : wfPlan retries plan = true) (restQ : List Delivery) (restF : List Bool) :
+    (plan : Plan) (hplan : wfPlan retries (pool cfg st) plan = true) (restQ : List Delivery) (restF : List Bool) :
     (Jc2m.query port retries
         (Net.init [.opened (faultyScript cfg st plan ++ restQ)] (faultyFaults plan ++ restF))).1
       = faultyExpected st plan
@@ -46,7 +53,8 @@ theorem query_faulty (cfg : Config) (st : State) (h : wf cfg st = true) (port : 
       = (.ok ⟨0, port.getD DEFAULT_PORT, false⟩,
           ⟨[], [faultyScript cfg st plan ++ restQ], faultyFaults plan ++ restF,
             [.opened 0 false (port.getD DEFAULT_PORT) false]⟩) := rfl
-  have hunit := steps_unitOf ⟨0, port.getD DEFAULT_PORT, false⟩ rfl PAYLOAD (recvOne _) (tailOk_recvOne _ rfl)
+  have hunit := steps_unitOf ⟨0, port.getD DEFAULT_PORT, false⟩ rfl PAYLOAD (pool cfg st) (recvOne _)
+    (tailOk_recvOne _ rfl (pool cfg st) (by simp [pool]))
     cfg.challenge hok.lo hok.hi (dataRequest cfg.challenge) (request_bytes cfg.challenge).2 [dataPacket cfg st]
     [payload st] restQ restQ (fun fs sn => steps_recvOne_packet _ rfl cfg st hok restQ fs sn) retries plan hplan restF []
   rw [← impl_eq_single] at hunit
@@ -64,7 +72,7 @@ theorem query_faulty (cfg : Config) (st : State) (h : wf cfg st = true) (port : 
     cases plan.ending with
     | valid => simpa using buildResponse_spec cfg st hok
     | gaveUp => rfl
-    | malformed stage m => rfl
+    | malformed stage got m => rfl
   rw [hexp] at hS
   simpa [faultySends] using hS
 
